@@ -445,7 +445,8 @@ def count(ctx: Ctx) -> None:
                         if isinstance(el, ast.Call) and isinstance(el.func, ast.Name) and el.func.id == "range" and is_self_attr(g.iter):
                             # recognisable: judge it
                             ok = unparse(el) == f"range(len({unparse(g.target)}))" and not g.ifs
-    ctx.need(ok is not None, "ChunkKeys.__iter__: product over per-axis ranges not recognised")
+    if ok is None:
+        ok = ctx.present(ck, False, "ChunkKeys.__iter__: product over per-axis ranges")
     ctx.ob(ck, None, ok, "ChunkKeys iterates the full product of range(len(c)) over its chunks", sel="count:chunkkeys")
     # the primitive stores the task iterable as it was given (or its own ChunkKeys): no
     # one-shot wrapper around it
